@@ -30,6 +30,23 @@ reg(
     "bounded exhaustive explicit-state model checking of the implementation against a reference model (small-world enumeration)",
 )
 
+
+T = "bounded exhaustive explicit-state model checking of the implementation against a reference model (small-world enumeration)"
+for _pid, _txt in {
+    "C02": "Exhaustive exploration of all ordered pairs of locations of the small world under every flag combination of the set API, cross-parent-kind pairs, a unary battery on disjoint/zero-length/overlapping layouts and depth-2 re-exploration of derived non-normalised results; oracle = python set algebra on covered positions + structural invariants on every returned location.",
+    "C03": "Exhaustive exploration of every location over designed genomes of all five nucleotide alphabets (every position distinguishable): extraction, reverse-strand extraction, all 2/3-way splits; located sequences on every location: every slice, index, open-ended slice, reverse complement (twice) and append for every ordered pair of slices; oracle = base-by-base image of the position-list model.",
+    "C04": "Exhaustive exploration of every hierarchy of depth <= D whose levels are placed by arbitrary single/multi-block layouts on either strand, every leaf location, lifted to every ancestor by type and by sequence identity (+ absent ancestors), and of every location x chunk window x chunk strand for the chunk round trip; oracle = composition of the per-level position lists and equality of extracted sequence.",
+    "C05": "Exhaustive exploration of every CDS on every exon layout x strand x EVERY frame vector (consistent and frameshifted) on three designed genomes: codon location lists, every chromosome window, fast sequence path, codon iterator, translation under every (table,truncate,strict), predicates, generated frames, and all 64 codons as first/middle/last codon; oracle = one reading-frame model.",
+    "C06": "Exhaustive exploration of every transcript (all exon layouts, strands, contiguous CDS placements, non-coding) through every point and interval conversion between chromosome/transcript/CDS coordinates, path independence, inverses, rejections, UTR/CDS partition and introns; oracle = position-list transcript model.",
+    "C12": "Exhaustive exploration of generated gene-model records x flavour x update_translations: file read by Bio.SeqIO (independent reader) and by parse_genbank in SORTED/LOCUS_TAG/HYBRID modes; oracle = expected rows, part sets, qualifiers and protein from the reading-frame model; mode agreement on sorted files.",
+    "C14": "Exhaustive exploration of every transcript/feature x CDS placement x parent kind x every chunk window containing the interval x both coordinate modes x name/score/rgb menu; str(BED12) decoded by an independent 12-column reader and checked against the BED invariants and the source blocks.",
+    "C15": "Complete enumeration of the finite domains (64 codons, 16^3 IUPAC triplets in three spellings, every alphabet letter in both cases + all 2-letter words, frames x shifts, strand algebra, biotype pairs) against Bio.Data.CodonTable / IUPACData / Bio.Seq.",
+    "C16": "Exhaustive exploration of all (start,end) pairs in and across bands around every bin boundary of every level, both conventions, out-of-range values, all soundness triples (interval, query range); thorough adds the 2^14 lattice up to 2^30; oracle = kent binFromRangeExtended transcription + containment + the soundness inclusion.",
+    "C17": "Exhaustive exploration of generated collections (CDS content x exon structure x strand x table x flavour; collections x locus-tag prefix/step/seed) exported to .tbl and decoded by an independent 5-column reader; oracle = source blocks 5'->3', partial marks / codon_start / pseudo from the reading-frame model, locus tag arithmetic, byte-identical reruns.",
+    "C18": "Exhaustive exploration of every ordered subset of the recognised qualifier keys in three spellings with look-alike keys and notes, type-key menus, all pairs of small dictionaries for merging, and ALL permutations of the feature rows of locus-tag-complete GenBank records parsed in LOCUS_TAG mode; oracle = documented priority ranks / set union / order independence.",
+}.items():
+    reg(_pid, _txt, COMMON_NOTE + ("Additionally trusts the harness-side compatibility layer /verif/vlib/compat (marshmallow 4 / Biopython 1.88 / pyvcf3 shims, self-tested)." if _pid in ("C12", "C17", "C18", "C04") else ""), T)
+
 NOT_YET = {}
 
 
